@@ -7,6 +7,15 @@ Extracts, with `ast` only, the SQL text of the optimistic-locking statements:
 and a few shape facts about the Python around them (rowcount == 0 -> ConcurrencyError, IntegrityError -> ConcurrencyError,
 in-memory version bump after a successful UPDATE, commit/rollback placement).
 Each UPDATE is split into its SET list [(column, expression)] and its WHERE conjuncts.
+
+Read path (torn reads): for the functions that build the stage objects later handed to store_stage
+(stage_ops.retrieve_stage, workflow_crud.retrieve, sqlite/queries.py load_tasks_for_stages / set_execution_reference /
+get_{upstream,downstream,synthetic}_stages) it lists
+  * every assignment to an attribute called `version` (there must be none: the version an object carries is the one
+    `row_to_stage` took from the row that also supplied status / context / outputs),
+  * every SELECT on stage_executions that names the `version` column (there must be none: only `SELECT *` rows),
+and for converters.row_to_stage whether `version`, `status`, `context`, `outputs` of the constructed StageExecution all
+come from the one `row` argument.
 """
 from __future__ import annotations
 
@@ -107,6 +116,112 @@ def _calls(fn: ast.FunctionDef, attr: str) -> int:
     return sum(1 for n in ast.walk(fn) if isinstance(n, ast.Call) and isinstance(n.func, ast.Attribute) and n.func.attr == attr)
 
 
+READ_PATH = [
+    ("persistence/sqlite/store/stage_ops.py", ["retrieve_stage"]),
+    ("persistence/sqlite/store/workflow_crud.py", ["retrieve"]),
+    ("persistence/sqlite/queries.py", ["load_tasks_for_stages", "set_execution_reference", "get_upstream_stages",
+                                       "get_downstream_stages", "get_synthetic_stages"]),
+]
+
+
+def _all_sql(fn: ast.FunctionDef) -> list[str]:
+    """every SQL text passed to *.execute(...) inside fn, f-strings with their holes shown as {}"""
+    out = []
+    for node in ast.walk(fn):
+        if isinstance(node, ast.Call) and isinstance(node.func, ast.Attribute) and node.func.attr == "execute" and node.args:
+            a = node.args[0]
+            if isinstance(a, ast.Constant) and isinstance(a.value, str):
+                out.append((node.lineno, _norm(a.value)))
+            elif isinstance(a, ast.JoinedStr):
+                out.append((node.lineno, _norm("".join(v.value if isinstance(v, ast.Constant) else "{}" for v in a.values))))
+            else:
+                # SQL held in a variable: take the string constants assigned to that name inside fn
+                name = ast.unparse(a)
+                found = False
+                for n in ast.walk(fn):
+                    if isinstance(n, ast.Assign) and any(ast.unparse(t) == name for t in n.targets) and isinstance(n.value, ast.Constant) \
+                            and isinstance(n.value.value, str):
+                        out.append((node.lineno, _norm(n.value.value)))
+                        found = True
+                if not found:
+                    raise TranslateError(f"{fn.name}: SQL expression `{name}` at line {node.lineno} not understood")
+    return [s for _, s in sorted(out)]
+
+
+def _version_assignments(fn: ast.FunctionDef) -> list[str]:
+    out = []
+    for node in ast.walk(fn):
+        targets = []
+        if isinstance(node, ast.Assign):
+            targets = list(node.targets)
+        elif isinstance(node, (ast.AugAssign, ast.AnnAssign)):
+            targets = [node.target]
+        elif isinstance(node, ast.Call) and getattr(node.func, "id", None) == "setattr" and len(node.args) >= 2:
+            a = node.args[1]
+            if not isinstance(a, ast.Constant) or a.value == "version":
+                out.append(f"{fn.name}: {_norm(ast.unparse(node))}")
+        elif isinstance(node, ast.Call) and isinstance(node.func, ast.Attribute) and node.func.attr in ("update", "__setattr__") \
+                and "__dict__" in ast.unparse(node.func):
+            out.append(f"{fn.name}: {_norm(ast.unparse(node))}")
+        flat = []
+        for t in targets:
+            flat += list(t.elts) if isinstance(t, (ast.Tuple, ast.List)) else [t]
+        for t in flat:
+            if isinstance(t, ast.Attribute) and t.attr == "version":
+                out.append(f"{fn.name}: {_norm(ast.unparse(node))}")
+    return sorted(out)
+
+
+def _read_path() -> dict:
+    assigns, selects, fns = [], [], []
+    for rel, names in READ_PATH:
+        mod = parse(rel)
+        for name in names:
+            fn = None
+            for node in ast.walk(mod):
+                if isinstance(node, ast.FunctionDef) and node.name == name:
+                    fn = node
+            if fn is None:
+                raise TranslateError(f"{rel}: {name} not found")
+            fns.append(name)
+            assigns += _version_assignments(fn)
+            for sql in _all_sql(fn):
+                if re.search(r"\bstage_executions\b", sql) and re.search(r"\bversion\b", sql):
+                    selects.append(f"{name}: {sql}")
+    cv = parse("persistence/sqlite/converters.py")
+    f_row = _find_fn(cv, None, "row_to_stage")
+    params = [a.arg for a in f_row.args.args]
+    if len(params) != 1:
+        raise TranslateError("row_to_stage: expected exactly one parameter (the row)")
+    row = params[0]
+    ctor = None
+    for node in ast.walk(f_row):
+        if isinstance(node, ast.Return) and isinstance(node.value, ast.Call) and getattr(node.value.func, "id", None) == "StageExecution":
+            ctor = node.value
+    if ctor is None:
+        raise TranslateError("row_to_stage: `return StageExecution(...)` not found")
+    kw = {k.arg: ast.unparse(k.value) for k in ctor.keywords if k.arg}
+    # local names assigned once from the row (context = json.loads(row["context"] or "{}"))
+    local = {}
+    for node in f_row.body:
+        if isinstance(node, ast.Assign) and len(node.targets) == 1 and isinstance(node.targets[0], ast.Name):
+            local[node.targets[0].id] = ast.unparse(node.value)
+
+    def from_row(expr: str, col: str) -> bool:
+        expr = local.get(expr, expr)
+        cols = set(re.findall(r"\b%s\[['\"](\w+)['\"]\]" % re.escape(row), expr))
+        names = {n.id for n in ast.walk(ast.parse(expr, mode="eval")) if isinstance(n, ast.Name)}
+        return cols == {col} and names <= {row, "json", "WorkflowStatus"}
+
+    return {
+        "functions": fns,
+        "assignments": assigns,
+        "selects": selects,
+        "versionFromRow": from_row(kw.get("version", ""), "version") if kw.get("version") else False,
+        "contentFromRow": all(kw.get(k) and from_row(kw[k], k) for k in ("status", "context", "outputs")),
+    }
+
+
 def extract() -> dict:
     so = parse("persistence/sqlite/store/stage_ops.py")
     tx = parse("persistence/sqlite/transaction.py")
@@ -148,6 +263,7 @@ def extract() -> dict:
     return {
         "storePlain": sp, "storePhase": spp, "txnPlain": tp, "txnPhase": tpp,
         "taskUpdate": up_upd[0], "taskInsert": up_ins[0],
+        "read": _read_path(),
         "flags": {
             "storeRowcountZeroRaises": _rowcount_zero_raises(f_store),
             "txnRowcountZeroRaises": _rowcount_zero_raises(f_txn),
@@ -196,6 +312,18 @@ def render(x: dict) -> str:
     ]
     for k, v in x["flags"].items():
         lines += [f"def {k} : Bool := {lean_bool(v)}"]
+    r = x["read"]
+    lines += [
+        "",
+        "/-- read path (" + ", ".join(r["functions"]) + "): assignments to an attribute `version` (function: statement) -/",
+        "def readPathVersionAssignments : List String := " + lean_list([lean_str(a) for a in r["assignments"]]),
+        "/-- read path: SELECTs on stage_executions that name the `version` column (function: SQL) -/",
+        "def readPathVersionSelects : List String := " + lean_list([lean_str(a) for a in r["selects"]]),
+        "/-- converters.row_to_stage: `version=` of the constructed StageExecution is `row[\"version\"]` -/",
+        f"def rowToStageVersionFromRow : Bool := {lean_bool(r['versionFromRow'])}",
+        "/-- converters.row_to_stage: status / context / outputs come from the same `row` -/",
+        f"def rowToStageContentFromRow : Bool := {lean_bool(r['contentFromRow'])}",
+    ]
     lines += ["", "end Stab.Gen.StoreSql", ""]
     return "\n".join(lines)
 
@@ -207,4 +335,4 @@ def run() -> dict:
             "extracted": {"storePlain.where": x["storePlain"]["where"], "storePhase.where": x["storePhase"]["where"],
                           "txnPlain.where": x["txnPlain"]["where"], "txnPhase.where": x["txnPhase"]["where"],
                           "taskUpdate.where": x["taskUpdate"]["where"],
-                          "set_columns": [c for c, _ in x["storePlain"]["set"]], "flags": x["flags"]}}
+                          "set_columns": [c for c, _ in x["storePlain"]["set"]], "flags": x["flags"], "read_path": x["read"]}}
